@@ -6,6 +6,7 @@ import (
 	"fmt"
 	"os"
 	"path/filepath"
+	"runtime/pprof"
 	"strconv"
 	"strings"
 
@@ -123,7 +124,7 @@ func cmdRun(args []string) int {
 	out := fs.String("out", "", "write JSON result here")
 	unwind := fs.Int("unwind", 40, "loop unwind limit per frame")
 	depth := fs.Int("depth", 200, "call depth limit")
-	solver := fs.String("solver", "z3", "z3 | z3-new | cvc5")
+	solver := fs.String("solver", "z3-new", "z3 | z3-new | cvc5")
 	timeout := fs.Int("timeout-ms", 20000, "per-query timeout")
 	workers := fs.Int("workers", 8, "parallel workers")
 	maxPaths := fs.Int("max-paths", 200000, "path limit")
@@ -132,8 +133,10 @@ func cmdRun(args []string) int {
 	validate := fs.Int("validate", 8, "witness vectors to produce")
 	known := fs.String("known", "", "comma separated known finding ids with active carve-outs")
 	verbose := fs.Bool("v", false, "verbose")
+	cpuprof := fs.String("cpuprofile", "", "write CPU profile")
 	params := paramList{}
 	fs.Var(params, "param", "k=v (repeatable)")
+	pureFns := fs.String("pure", "", "comma separated real functions to evaluate merged")
 	redir := redirList{}
 	fs.Var(redir, "redirect", "realFn=harnessFn (repeatable)")
 	fs.Parse(args)
@@ -142,6 +145,11 @@ func cmdRun(args []string) int {
 	if err != nil {
 		fmt.Fprintln(os.Stderr, "INCONCLUSIVE: load:", err)
 		return 2
+	}
+	if *cpuprof != "" {
+		f, _ := os.Create(*cpuprof)
+		pprof.StartCPUProfile(f)
+		defer pprof.StopCPUProfile()
 	}
 	rc := 0
 	var results []*RunResult
@@ -153,7 +161,12 @@ func cmdRun(args []string) int {
 		}
 		cfg := &Config{Unwind: *unwind, MaxDepth: *depth, Solver: *solver, TimeoutMs: *timeout, Workers: *workers,
 			MaxPaths: *maxPaths, MapOrder: *mapOrder, Params: params, Known: map[string]bool{}, DeadlineSec: *deadline,
-			Validate: *validate, Verbose: *verbose, Redirect: redir}
+			Validate: *validate, Verbose: *verbose, Redirect: redir, PureFns: map[string]bool{}}
+		for _, p := range strings.Split(*pureFns, ",") {
+			if p != "" {
+				cfg.PureFns[p] = true
+			}
+		}
 		for _, k := range strings.Split(*known, ",") {
 			if k != "" {
 				cfg.Known[k] = true
